@@ -530,7 +530,7 @@ inductive RemItem where
 inductive Clause where
   | unwind (e : E) (x : Nat)
   | matchN (x : Nat) (labels : List Nat) (props : List (Nat × E))
-  | matchR (a : Nat) (la : List Nat) (r ty b : Nat) (lb : List Nat)
+  | matchR (a : Nat) (la : List Nat) (r ty b : Nat) (lb : List Nat)   -- ty = 999: untyped `-[r]->`; a = b allowed (self-loop)
   | filter (e : E)
   | withC (keep : List Nat) (items : List (Nat × E))
   | create (paths : List CPath)
@@ -725,7 +725,7 @@ def readRows (g : G) (ps : Props) (c : Clause) (row : Row) : R (List Row) :=
     pure (g.rels.filterMap (fun rel =>
       match g.node? rel.src, g.node? rel.tgt with
       | some s, some t =>
-        if rel.ty = ty && hasLabels s la && hasLabels t lb && s.id ≠ t.id then
+        if (rel.ty = ty || ty = 999) && hasLabels s la && hasLabels t lb then
           some (Row.bind (Row.bind (Row.bind row a (.node s.id)) r (.rel rel.id)) b (.node t.id))
         else none
       | _, _ => none))
